@@ -1,7 +1,8 @@
 """Command-line level harness support: runs `tool.main(argv)` (the real
 argparse wiring and the real cart readers / writers) over an in-memory file
-system.  Stubbed environment: builtins.open, os.path.exists,
-tempfile.TemporaryFile, util.write / util.error (captured)."""
+system.  Stubbed environment: builtins.open, os.path.exists / isfile,
+os.getenv, os.remove / unlink / rename / replace, tempfile.TemporaryFile,
+util.write / util.error (captured)."""
 import builtins
 import os
 import tempfile
@@ -45,6 +46,24 @@ class MemFS:
         self.env = {}
         hx.patch(x, os, 'getenv',
                  lambda k, default=None: fs.env.get(k, default))
+        self.removed = []
+
+        def fake_remove(name, *a, **kw):
+            if name not in fs.files:
+                raise FileNotFoundError(name)
+            fs.removed.append(name)
+            del fs.files[name]
+
+        def fake_rename(src, dst, *a, **kw):
+            if src not in fs.files:
+                raise FileNotFoundError(src)
+            fs.removed.append(src)
+            fs.opened_for_write.append(dst)
+            fs.files[dst] = fs.files.pop(src)
+        hx.patch(x, os, 'remove', fake_remove)
+        hx.patch(x, os, 'unlink', fake_remove)
+        hx.patch(x, os, 'rename', fake_rename)
+        hx.patch(x, os, 'replace', fake_rename)
         hx.patch(x, tempfile, 'TemporaryFile',
                  lambda **kw: hx.MemStream())
         hx.patch(x, util, 'write', lambda msg: fs.messages.append(msg))
